@@ -8,7 +8,7 @@
    as it is now (the check re-extracts it from the sources on every run); ls ranges over ALL
    schedules, `exec` skips labels that are not enabled. *)
 From Coq Require Import List.
-From WV Require Import Model.CloseLTS Proofs.CloseInv Proofs.CloseP.
+From WV Require Import Model.CloseLTS Proofs.CloseInv Proofs.CloseP Proofs.CloseLive Run.RunClose.
 Import ListNotations.
 
 (* Close never crashes the process, whatever it lands on: no nil dereference in Invoke or in a
@@ -41,6 +41,40 @@ Theorem C09_nothing_starts_after_close : forall ls, let s := exec good init ls i
   (forall g kind, step good s (LHand g kind) = None) /\ (forall ok, step good s (LDial ok) = None) /\ (forall via, step good s (LRt via) = None).
 Proof. exact nothing_after_close. Qed.
 Print Assumptions C09_nothing_starts_after_close.
+
+(* Close returns within a bounded time once the handlers already running have returned: from
+   EVERY reachable state (any schedule ls0, so whatever else is in flight - calls, a reconnect
+   attempt, incoming traffic, other Close calls) in which no request goroutine is inside the user's
+   handler, and for every Close call k, there is a schedule - CloseLive.help, computed from the
+   state - every step of which is enabled when its turn comes and after which call k has returned.
+   It consists only of steps of that Close call, of the goroutine holding ac.mu, of the pumps, the
+   reader, the publisher, the reader manager and the per-message goroutines of the connection, and
+   of the failure of a dial whose context has been cancelled; it is no longer than
+   19 + 6 * (transports ever created) + (per-message goroutines ever started): nothing Close
+   waits for can wait for ever, and nothing it waits for waits for the peer or the network. *)
+Theorem C09_close_returns : forall ls0 k, let s := exec good init ls0 in
+  k < length (cl s) -> (forall i, getG s i <> GBody) ->
+  exists ls s', run good s ls = Some s' /\ (exists b, getC s' k = CRet b) /\
+                length ls <= 19 + 6 * length (trs s) + length (gs s).
+Proof. exact close_returns. Qed.
+Print Assumptions C09_close_returns.
+
+(* the premises are met by a state in which a lot is going on: connected, the read pump holding a
+   message, an Invoke and a reply inside Write, the reconnect loop waiting, two Close calls of which
+   one has taken its first step; the schedule computed for either call takes it to its return and,
+   for the one which tears down, to a final state *)
+Definition C09_busy : list lab :=
+  p_connect ++ [LNewInvoke; LG 0 GA; LG 0 GA; LG 0 GA; LNet 0; LHand 0 (Some true); LHandlerRet 1 true; LG 1 GA; LNet 0;
+                LNewClose; LNewClose; LClose 0 true].
+Example C09_close_returns_example :
+  let s := exec good init C09_busy in
+  cl s = [C1; C0] /\ gs s = [GWrite false 0; GWrite true 0] /\ rt s = RWait 0 /\ map wp (trs s) = [WPSel] /\ map rp (trs s) = [RPHand] /\
+  (forall i, getG s i <> GBody) /\
+  (match run good s (help (rank s 0) s 0) with Some s' => (getC s' 0, final s') | None => (CCrash, false) end) = (CRet true, true) /\
+  length (help (rank s 0) s 0) = 16.
+Proof.
+  vm_compute. repeat split; auto. intros [|[|[|i]]]; discriminate.
+Qed.
 
 (* the code as it was before the repairs, refuted: Invoke after Close and a second Close kill the
    process (cfg without the nil guards) *)
